@@ -4,6 +4,7 @@ import Casm.Proofs.SwitchPass
 import Casm.Props.C02
 import Casm.Proofs.SwitchAsm
 import Casm.Proofs.SwitchOutcome
+import Casm.Proofs.SwitchFinal
 /-!
 # C08 — the two optimisation switches never change any result
 
@@ -335,6 +336,28 @@ theorem the_static_switch_never_changes_the_outcome (opts : Opts) (fs : SrcFiles
     (hS : ∀ st nodes d0, frontEnd opts fs roots = .ok (st, nodes, d0) → frontOKSb st nodes d0 = true ∧ frontUniqb nodes d0 = true) :
     (assemble opts.staticOff fs roots).map AsmOk.core = (assemble opts fs roots).map AsmOk.core :=
   assemble_switch_outcome opts fs roots ho hmax hrel hS
+
+/-- the two front ends agree up to marks (the hypothesis `FrontRel` of the theorem above, proved) -/
+theorem the_two_front_ends_agree_up_to_marks (opts : Opts) (ho : opts.optStatic = true) (fs : SrcFiles) (roots : List (List Char)) :
+    FrontRel opts fs roots :=
+  frontRel_proved opts ho fs roots
+
+/-- the facts about the front end's result that the simulation uses (the other two hypotheses, proved) -/
+theorem front_end_facts (opts : Opts) (fs : SrcFiles) (roots : List (List Char)) (st : Static) (nodes : List AstNode) (defs0 : Defs)
+    (h : frontEnd opts fs roots = .ok (st, nodes, defs0)) :
+    FrontOKS st nodes defs0 (markedByBoth st defs0) ∧ Uniq nodes ∧ NodesOK defs0 nodes :=
+  ⟨frontEnd_frontOKS opts fs roots st nodes defs0 h, frontEnd_uniq opts fs roots st nodes defs0 h,
+   frontEnd_nodesOK opts fs roots st nodes defs0 h⟩
+
+/-- **C08, static switch — the statement of the property for the model, no hypothesis left**: for every
+    program, every set of files and every budget of at least two, assembling with
+    `--debug-no-optimize-static` fails with the same messages or succeeds with the same bits, spans and
+    symbols as assembling without it.  (Budget 1 is finding F29; the matcher switch is
+    `same_matches_of_index_complete` and finding F10.) -/
+theorem C08_static_switch (opts : Opts) (fs : SrcFiles) (roots : List (List Char))
+    (ho : opts.optStatic = true) (hmax : 2 ≤ opts.maxIter) :
+    (assemble opts.staticOff fs roots).map AsmOk.core = (assemble opts fs roots).map AsmOk.core :=
+  assemble_static_switch opts fs roots ho hmax
 
 /-! non-vacuity: `ld {x} => 0x10 @ x`8`; `ld 5` is statically known, `ld lbl` is not (even if a
     statically known constant is called `x`: finding F30) -/
